@@ -164,6 +164,24 @@ Proof.
   rewrite (cor_node_delta c _ k f WF WH FL n i Hi D), (since_reset_history c h1 h2 k NR). reflexivity.
 Qed.
 
+(* how node_tp reads on the node's record list; one flow record per distinct 5-tuple *)
+Lemma cor_throughput_reading : forall n evs,
+  (forall o, node_recs n evs = [o] -> node_recs n (since_reset evs) <> [] ->
+     node_tp n evs = [mul8 (o_oct o) / (o_end o - o_start o); mul8 (o_roct o) / (o_end o - o_start o)]) /\
+  (forall l p o, node_recs n evs = (l ++ [p; o])%list -> node_recs n (since_reset evs) <> [] ->
+     node_tp n evs = [mul8 (o_oct o - o_oct p) / (o_end o - o_end p);
+                      mul8 (o_roct o - o_roct p) / (o_end o - o_end p)]) /\
+  (node_recs n (since_reset evs) = [] -> node_tp n evs = [0; 0]).
+Proof.
+  intros n evs. split; [exact (node_tp_first n evs)|]. split; [exact (node_tp_next n evs) | exact (node_tp_cleared n evs)].
+Qed.
+Lemma cor_one_flow_per_key : forall c h, wf_config c = true -> typed_history c h = true ->
+  List.length (run c h) = List.length (flow_keys h) /\
+  forall k, lookup (run c h) k <> None <-> In k (flow_keys h).
+Proof.
+  intros c h WF TY. split; [exact (flow_count c h WF TY) | intros k; exact (flow_exists_iff c h k WF TY)].
+Qed.
+
 (* ---------------------------------------------------------------- non-vacuity of the contract *)
 Lemma ex_history_wf : wf_history ex_cfg ex_history = true.
 Proof. vm_compute. reflexivity. Qed.
@@ -189,3 +207,7 @@ Proof. split; vm_compute; reflexivity. Qed.
 Lemma ex_breach_not_wf :
   wf_history ex_cfg [OpRec (ex_rec true 10 1000 1000); OpRec (ex_rec true 10 3000 2000)] = false.
 Proof. vm_compute. reflexivity. Qed.
+Lemma ex_contract_examples :
+  wf_history ex_cfg ex_history = true /\ wf_history ex_cfg ex_history_reset = true /\
+  wf_history ex_cfg [OpRec (ex_rec true 10 1000 1000); OpRec (ex_rec true 10 3000 2000)] = false.
+Proof. exact (conj ex_history_wf (conj ex_history_reset_wf ex_breach_not_wf)). Qed.
